@@ -540,8 +540,8 @@ func (c *recCache) Close() error { return c.inner.Close() }
 // execution of one case on the implementation
 
 type OpOut struct {
-	Res     string   // ok | err | panic
-	Data    []byte   // read result
+	Res     string // ok | err | panic
+	Data    []byte // read result
 	Fetched [][2]int64
 	FSize   int64
 	Single  bool
@@ -556,6 +556,7 @@ type execResult struct {
 	skip     bool // could not resolve (never expected)
 	// concurrent part
 	concOK, concReqs, concMaxInflight, concMisses int
+	concCloseErr                                  bool
 }
 
 func run(c Case) execResult {
@@ -828,7 +829,7 @@ func run(c Case) execResult {
 			p := make([]byte, size+1)
 			n, err := b.ReadAt(p, 0)
 			if err != nil {
-				bad("closing read of the whole blob failed against a well-behaved registry: %v", err)
+				res.concCloseErr = true // allowed by the property ("or an error"); counted, not a violation
 			} else if int64(n) != size || !bytes.Equal(p[:n], blob) {
 				bad("closing read after the concurrent phase returned %d bytes that are not the blob", n)
 			}
@@ -1106,6 +1107,10 @@ func corpus() []Case {
 		{Size: 16, CS: 4, PCS: 8, Cache: "mem", Ops: []Op{{Op: "cache", Off: 3, N: 6}, {Op: "cache", Off: 0, N: 0}, {Op: "check"}, {Op: "refresh"}, rd(0, 17)}},
 		{Size: 0, CS: 4, Cache: "mem", Ops: []Op{rd(0, 3), {Op: "cache", Off: 0, N: 5}, rd(1, 1)}},
 		{Size: 7, CS: 3, Force: true, Cache: "mem", Ops: []Op{rd(0, 1), rd(6, 1), rd(0, 7), {Op: "refresh"}, rd(0, 7)}},
+		{Size: 16, CS: 4, Cache: "mem", Ops: []Op{rd(0, 2), rd(9, 2), rd(0, 16, "first"), rd(0, 16, "mpalways"),
+			{Op: "evict", B: 4, E: 7}, rd(4, 8, "over"), rd(0, 17)}},
+		{Size: 13, CS: 4, Cache: "mem", Ops: []Op{rd(2, 3, "500"), rd(2, 3, "conn"), rd(2, 3, "badct"), rd(2, 3, "badcr"),
+			rd(2, 3, "200nolen"), rd(2, 9, "badcrpart"), rd(2, 9, "beyond"), rd(0, 14)}},
 	}
 }
 
@@ -1167,6 +1172,9 @@ func main() {
 			ctx.CountN("conc.cache_misses_injected", res.concMisses)
 			if res.concMaxInflight > 1 {
 				ctx.Count("conc.overlapping_requests")
+			}
+			if res.concCloseErr {
+				ctx.Count("conc.closing_read_error")
 			}
 			b, _ := json.Marshal(c)
 			key = string(b)
